@@ -336,10 +336,16 @@ func c04Part(rp *runner.Report) {
 		}
 	}
 	check := func(e *expr) bool {
+		// a relation filter and a registered filter match component sets exactly like the filter they wrap
+		rf := ecs.NewRelationFilter(e.f, ecs.Entity{})
 		for ci := range ctxs {
 			c := &ctxs[ci]
 			if got, want := e.f.Matches(&c.m), e.eval(&c.s); got != want {
 				fail("filter:logic", fmt.Sprintf("%s matches component set #%d: %t, expected %t", e.name, ci, got, want))
+				return false
+			}
+			if got, want := rf.Matches(&c.m), e.eval(&c.s); got != want {
+				fail("filter:relation-wrapper", fmt.Sprintf("RelationFilter(%s) matches component set #%d: %t, expected %t", e.name, ci, got, want))
 				return false
 			}
 		}
@@ -348,6 +354,21 @@ func c04Part(rp *runner.Report) {
 	}
 	for i := range leaves {
 		check(&leaves[i])
+	}
+	{
+		w := ecs.NewWorld()
+		for i := range leaves {
+			cf := w.Cache().Register(leaves[i].f)
+			for ci := range ctxs {
+				if got, want := cf.Matches(&ctxs[ci].m), leaves[i].eval(&ctxs[ci].s); got != want {
+					fail("filter:cached-wrapper", fmt.Sprintf("registered %s matches component set #%d: %t, expected %t", leaves[i].name, ci, got, want))
+				}
+			}
+			atomic.AddInt64(&evals, int64(len(ctxs)))
+			if back := w.Cache().Unregister(&cf); back != leaves[i].f {
+				fail("filter:unregister", "Unregister does not return the original filter")
+			}
+		}
 	}
 	combine := func(l, r *expr) []expr {
 		return []expr{
